@@ -64,3 +64,11 @@ pub fn parse_intermediate_polynomial(input: TokenStream) -> TokenStream {
 
     TokenStream::from_str(&tokens).unwrap()
 }
+
+// Verification hook (compiled only with `--cfg spindalis_verif`): expands to the text the
+// polynomial macros receive for the same input, as a string literal. It adds no behaviour.
+#[cfg(spindalis_verif)]
+#[proc_macro]
+pub fn verif_token_text(input: TokenStream) -> TokenStream {
+    TokenStream::from_str(&format!("{:?}", input.to_string())).unwrap()
+}
